@@ -169,10 +169,17 @@ def order(ctx: Any) -> List[Ob]:
     # which add collection holds the address records?  the one fed under the `in _ADDRESS_RECORD_TYPES` test
     addr_coll = None
     for t in ast.walk(loop):
-        if isinstance(t, ast.If) and isinstance(t.test, ast.Compare) and isinstance(t.test.ops[0], ast.In):
-            okc, v = ctx.prog.try_fold(f.module, t.test.comparators[0])
+        if not isinstance(t, ast.If):
+            continue
+        test, arm = t.test, t.body
+        if isinstance(test, ast.UnaryOp) and isinstance(test.op, ast.Not):
+            test, arm = test.operand, t.orelse
+        if isinstance(test, ast.Compare) and isinstance(test.ops[0], ast.NotIn):
+            arm = t.orelse if arm is t.body else t.body
+        if isinstance(test, ast.Compare) and isinstance(test.ops[0], (ast.In, ast.NotIn)):
+            okc, v = ctx.prog.try_fold(f.module, test.comparators[0])
             if okc and set(v) == {1, 28}:
-                for c in ast.walk(ast.Module(body=t.body, type_ignores=[])):
+                for c in ast.walk(ast.Module(body=arm, type_ignores=[])):
                     if isinstance(c, ast.Call) and call_name(c) == 'append' and isinstance(c.func.value, ast.Name):
                         addr_coll = c.func.value.id
     if addr_coll is None or addr_coll not in adds:
